@@ -46,6 +46,21 @@ def run(prop, tier, seed, replay=None):
     work = os.path.join(C.CACHE, 'run', '%s-%s-%d' % (prop, tier, os.getpid()))
     os.makedirs(work, exist_ok=True)
     if has_cases:
+        if replay and json.load(open(replay))['case'][:1] == ['ENGINE']:
+            # replay of an engine-level finding of C15: one pie history, implementation against model
+            from . import run_pie as RP
+            toks2 = json.load(open(replay))['case'][1:]
+            exe_hist, hout = C.build_harness('pie_hist')
+            impl, model, crashes = RP.run_cases(exe_hist, exe_model, [toks2], work)
+            a = RP.comparable(impl[0] or [], 'ovd'); b = RP.comparable(model[0] or [], 'ovd')
+            shutil.rmtree(work, ignore_errors=True)
+            if impl[0] is None or a != b:
+                first = next((k for k, (x, y) in enumerate(zip(a, b)) if x != y), min(len(a), len(b)))
+                print('VIOLATION property=%s replay=%s' % (prop, replay))
+                print('  key identity through the engine: implementation %r, model %r' % (a[first] if first < len(a) else None, b[first] if first < len(b) else None))
+                return 1
+            print('replay: implementation and model agree on this history')
+            return 0
         if replay:
             cases = [json.load(open(replay))['case']]
         else:
@@ -87,6 +102,37 @@ def run(prop, tier, seed, replay=None):
             a, b = SM.comparable(prop, ic[i]), SM.comparable(prop, mc[i] if i < len(mc) else [])
             first = next((k for k, (x, y) in enumerate(zip(a, b)) if x != y), min(len(a), len(b)))
             divergences.append((i, first, a[first] if first < len(a) else None, b[first] if first < len(b) else None))
+    engine = None
+    if prop == 'C15' and not replay:
+        # identity of keys THROUGH THE ENGINE: task and resource keys travel through the build contexts as boxed / borrowed trait
+        # objects (requires, written resources handed to the scheduler, boxed change reports).  A small correspondence run of the
+        # pie layer (bottom-up builds that are also told about generated resources; ordinary bottom-up histories) with the store dump
+        # compared: one node per (type, value), every dependency attached to it
+        from . import run_pie as RP
+        exe_hist, hout = C.build_harness('pie_hist')
+        if exe_hist and exe_model:
+            rng2 = random.Random(seed * 9973 + 15)
+            ecases = []
+            for stream, n in (('reported_products', 60 if tier == 'quick' else 600), ('bu_wf', 40 if tier == 'quick' else 400)):
+                for _ in range(n):
+                    pg, steps, meta = RP.make_case(rng2, stream)
+                    ecases.append(RP.P.case_tokens(pg, steps))
+            work2 = os.path.join(C.CACHE, 'run', '%s-engine-%d' % (prop, os.getpid()))
+            os.makedirs(work2, exist_ok=True)
+            impl, model, crashes = RP.run_cases(exe_hist, exe_model, ecases, work2)
+            shutil.rmtree(work2, ignore_errors=True)
+            bad = 0
+            for j, toks2 in enumerate(ecases):
+                a = RP.comparable(impl[j] or [], 'ovd'); b = RP.comparable(model[j] or [], 'ovd')
+                if impl[j] is None or a != b:
+                    bad += 1
+                    if engine is None:
+                        first = next((k for k, (x, y) in enumerate(zip(a, b)) if x != y), min(len(a), len(b)))
+                        engine = (toks2, a[first] if first < len(a) else None, b[first] if first < len(b) else None)
+            if engine is not None:
+                findings.append(('engine-key-identity', 'key identity through the engine: on %d of %d pie histories the store (nodes per key, dependencies attached to them), the event stream or the outputs differ from the model, in which a key is (type, value); first: implementation %r, model %r' % (bad, len(ecases), engine[1], engine[2]), len(cases)))
+                cases.append(['ENGINE'] + engine[0])
+            lines_total += sum(len(x or []) for x in impl)
     rc = 0
     nviol = 0
     known = C.load_known(prop)
